@@ -22,7 +22,7 @@ from sim import core
 
 VERIF = os.path.dirname(os.path.dirname(os.path.abspath(__file__)))
 PY = sys.executable
-RUN_ALARM_S = 60
+RUN_ALARM_S = 180
 MAX_DISTINCT = 3_000_000
 
 
